@@ -21,7 +21,8 @@ Proof. vm_compute. reflexivity. Qed.
 (* the read commands of the reference BMC (netfn, cmd) *)
 Definition read_cmds : list (N * N) :=
   [(6, 1); (6, 8); (6, 37); (6, 70); (6, 68); (0, 1); (0, 9); (4, 1); (4, 45); (4, 39); (4, 42);
-   (12, 2); (44, 0); (44, 8); (44, 11); (44, 18); (44, 20); (44, 22); (44, 46); (44, 52); (44, 54)].
+   (12, 2); (44, 0); (44, 8); (44, 11); (44, 18); (44, 20); (44, 22); (44, 46); (44, 52); (44, 54);
+   (6, 56); (44, 15); (44, 60); (44, 37); (44, 55); (44, 1); (44, 2)].
 Definition is_read_cmd (r : request) : bool :=
   existsb (fun '(a, b) => (q_netfn r =? a) && (q_cmd r =? b)) read_cmds.
 
@@ -32,7 +33,7 @@ Proof.
   apply N.eqb_eq in E1, E2. subst nf cmd.
   unfold read_cmds in Hin. cbn [List.In] in Hin.
   repeat (destruct Hin as [Hin | Hin];
-          [injection Hin as <- <-; unfold bmc_handle, h_app, h_chassis, h_sensor, h_transport, h_picmg;
+          [injection Hin as <- <-; unfold bmc_handle, h_app, h_chassis, h_sensor, h_transport, h_picmg, h_dcmi;
            cbn [q_netfn q_cmd q_lun q_data N.eqb Pos.eqb];
            repeat match goal with |- context [if ?c then _ else _] => destruct c end; reflexivity |]).
   contradiction.
@@ -64,7 +65,14 @@ Definition read_samples : list (string * list (string * pv) * reply) := [
   ("get_fan_speed_properties", [arg "fru_id" 1], RBytes [0]); ("get_fan_level", [arg "fru_id" 1], RBytes [0]);
   ("get_led_state", [arg "fru_id" 1; arg "led_id" 2], RBytes [0]);
   ("get_target_upgrade_capabilities", [], RBytes [0]); ("get_upgrade_status", [], RBytes [0]);
-  ("query_selftest_results", [], RBytes [0])].
+  ("query_selftest_results", [], RBytes [0]);
+  ("get_port_state", [arg "channel_number" 15; arg "channel_interface" 1], RBytes [0]);
+  ("get_signaling_class", [arg "interface" 1; arg "channel" 15], RBytes [0]);
+  ("get_power_channel_status", [arg "start" 3], RBytes [0]); ("get_pm_global_status", [], RBytes [0]);
+  ("get_device_guid", [], RBytes [0]);
+  ("get_channel_authentication_capabilities", [arg "channel" 1; arg "priv_lvl" 4], RBytes [0]);
+  ("query_rollback_status", [], RBytes [0]); ("get_dcmi_capabilities", [arg "selector" 1], RBytes [0]);
+  ("get_power_reading", [arg "mode" 1; arg "attributes" 0], RBytes [0])].
 Definition chk_read_sample (x : string * list (string * pv) * reply) : bool :=
   let '(n, a, rp) := x in
   match find_cop n with
